@@ -9,6 +9,20 @@ TECH = "property-based testing (Hypothesis): generated inputs vs. dense referenc
 
 # id -> (technique, level text, level_note, design_ref)
 CLAIMED = {
+    "C01": ("property-based testing (Hypothesis): generated dense arrays in four constructed spectrum families (exact-rank, noise-saturating, exact ties, degenerate) vs. error/rank bounds",
+            "Generated search over order/mode pattern/dtype/source/target/eps/rmax with inputs *constructed* to sit at the "
+            "edge of every bond's allowance (flat noise tails) and exactly on the truncation threshold (integer spectra), "
+            "checked against the stated error bound, rank bounds (rmax, unfolding dimensions, constructed unfolding rank), "
+            "shape and dtype.",
+            "Trusted: the checker's dense contraction; unfolding ranks known by construction. Exact ties are reached only "
+            "through the constructed family.",
+            "DESIGN.md 4/C01"),
+    "C02": ("property-based testing (Hypothesis): generated TT objects built from cores (inflated, gauge-scrambled up to cond 1e6, rescaled, noise-saturating, ties, zero) vs. eps/rank/aliasing oracle",
+            "Generated search over representation pathologies with true unfolding ranks known by construction; oracle = "
+            "error bound w.r.t. the actual cores' float64 value plus a kappa-scaled roundoff term, rank monotonicity, "
+            "rmax, constructed unfolding rank, operand bit-identity and storage disjointness.",
+            "Trusted: checker's dense contraction; prod ||C_k||_F as bound of the orthogonalisation roundoff.",
+            "DESIGN.md 4/C02"),
     "C03": ("property-based testing (Hypothesis): generated operand pairs/scalars vs. bit-exact dense reference model",
             "Generated search over operation x broadcasting alignment x scalar kind x structure x dtype with a bit-exact "
             "oracle for integer payloads (the outputs are polynomials in the core entries, so structural errors cannot "
